@@ -255,7 +255,7 @@ DynamicBitset& DynamicBitset::flip() noexcept( true)
 DynamicBitset& DynamicBitset::flip( size_t pos)
 {
 
-   if (pos > mData.size())
+   if (pos >= mData.size())
       mData.resize( (pos + 1) * 1.5);
 
    mData[ pos] = !mData[ pos];
